@@ -98,6 +98,11 @@ func match(t *rt.Thread, c *rt.GoCont) (rt.Cont, error) {
 	if ptnErr != nil {
 		return nil, ptnErr
 	}
+	if si > len(s) {
+		// Start after the end of the string: no match
+		t.Push1(next, rt.NilValue)
+		return next, nil
+	}
 	captures, usedCPU := pat.MatchFromStart(string(s), si, t.UnusedCPU())
 	t.RequireCPU(usedCPU)
 	pushCaptures(t.Runtime, captures, s, next)
@@ -159,6 +164,10 @@ func gmatch(t *rt.Thread, c *rt.GoCont) (rt.Cont, error) {
 	si := luastrings.StringNormPos(s, int(init)) - 1
 	if si < 0 {
 		si = 0
+	}
+	if si > len(s) {
+		// Start after the end of the string: there will be no match
+		si = len(s) + 1
 	}
 	allowEmpty := true
 	var iterator = func(t *rt.Thread, c *rt.GoCont) (rt.Cont, error) {
